@@ -13,6 +13,7 @@
 -/
 import TypedpyModel.Lemmas.DefineWorld
 import TypedpyModel.Lemmas.DefineBridge
+import TypedpyModel.Lemmas.DeriveTotal
 namespace Typedpy.C14
 open Typedpy
 
@@ -158,20 +159,47 @@ theorem inherited_field_same {O : Oracles} {w : World} {src : ClassSrc} {cd bd :
         · rw [hkb]; exact hbdm
         · exact absurd rfl (fun _ : k = k => other k hks hkb rfl)
 
-/-- C14 (required): a parameter the constructor of base `bd` demands — unless a base listed
-    earlier declares the same name optional — is in the subclass's `_required`, and unless the
-    subclass turns it into a Constant its constructor demands it too. -/
-theorem sub_required_superset_partial {O : Oracles} {w : World} {src : ClassSrc} {cd bd : ClassDef}
-    (h : defineClass O w src = .ok cd) {pre post : List ClassDef}
-    (hb : structBases w src = pre ++ bd :: post) {n : String} (hn : n ∈ bd.sig.req)
-    (hpre : ∀ p ∈ pre, n ∈ p.sig.opt → n ∈ p.sig.req) :
+theorem c14_mem_allSigParams {bd : ClassDef} {p : String × Bool} : ∀ {l : List ClassDef}, bd ∈ l →
+    p ∈ sigParams bd.sig → p ∈ allSigParams l
+  | [], h, _ => by cases h
+  | x :: xs, h, hp => by
+    simp only [allSigParams, List.mem_append]
+    rcases List.mem_cons.mp h with rfl | h1
+    · exact Or.inl hp
+    · exact Or.inr (c14_mem_allSigParams h1 hp)
+
+theorem c14_lookup_map_key {α β} (f : String → β) (n : String) : ∀ l : List (String × α),
+    lookup n (l.map fun p => (p.1, f p.1)) = (lookup n l).map fun _ => f n
+  | [] => rfl
+  | (k, v) :: rest => by
+    simp only [List.map_cons, lookup]
+    by_cases h : n = k
+    · subst h; simp
+    · have hb : (n == k) = false := by simpa using h
+      simp only [hb, Bool.false_eq_true, if_false]
+      exact c14_lookup_map_key f n rest
+
+/-- C14 (required; since the repair of `required-not-superset:optional-in-earlier-base` for EVERY
+    base, whatever the bases listed before it declare): a parameter the constructor of a base
+    demands is in the subclass's `_required`, and unless the subclass turns it into a Constant its
+    constructor demands it too. -/
+theorem sub_required_superset {O : Oracles} {w : World} {src : ClassSrc} {cd bd : ClassDef}
+    (h : defineClass O w src = .ok cd) (hb : bd ∈ structBases w src) {n : String} (hn : n ∈ bd.sig.req) :
     n ∈ cd.required ∧ (n ∉ cd.constants.map (·.1) → n ∈ cd.sig.req) := by
   rcases defineClass_ok h with ⟨_, rfl⟩
+  have hin : (n, true) ∈ allSigParams (structBases w src) :=
+    c14_mem_allSigParams hb (by simp [sigParams, hn])
+  have hany : (allSigParams (structBases w src)).any (fun q => q.1 == n && q.2) = true :=
+    List.any_eq_true.mpr ⟨(n, true), hin, by simp⟩
   have hl : lookup n (basesParams w src) = some true := by
-    rw [basesParams, lookup_dedupKeys, hb, allSigParams_append]
-    apply lookup_pre _ pre hpre
-    simp only [allSigParams]
-    exact lookup_sigParams_req hn _
+    simp only [basesParams]
+    rw [c14_lookup_map_key (fun k => (allSigParams (structBases w src)).any fun q => q.1 == k && q.2) n,
+      lookup_dedupKeys, hany]
+    have : (lookup n (allSigParams (structBases w src))).isSome = true := by
+      rw [lookup_isSome_iff]; exact List.mem_map_of_mem (f := (·.1)) hin
+    cases hq : lookup n (allSigParams (structBases w src)) with
+    | none => simp [hq] at this
+    | some v => rfl
   have hmem : (n, true) ∈ basesParams w src := lookup_mem hl
   have hbr : n ∈ basesRequired w src := by
     simp only [basesRequired, List.mem_map, List.mem_filter]
@@ -179,7 +207,7 @@ theorem sub_required_superset_partial {O : Oracles} {w : World} {src : ClassSrc}
   refine ⟨?_, ?_⟩
   · show n ∈ requiredOf w src
     rw [requiredOf, mem_dedupStr]
-    exact List.mem_append_left _ hbr
+    exact List.mem_append_left _ (List.mem_append_left _ hbr)
   · intro hc
     show n ∈ (sigOf w src).req
     simp only [sigOf, mem_dedupStr]
@@ -191,6 +219,13 @@ theorem sub_required_superset_partial {O : Oracles} {w : World} {src : ClassSrc}
       simpa using hc0
     have : (basesRequired w src).contains n = true := by simpa using hbr
     rw [this, hc']; simp
+
+/-- the form the theorem had while the finding was open (kept for the users of the old name) -/
+theorem sub_required_superset_partial {O : Oracles} {w : World} {src : ClassSrc} {cd bd : ClassDef}
+    (h : defineClass O w src = .ok cd) {pre post : List ClassDef}
+    (hb : structBases w src = pre ++ bd :: post) {n : String} (hn : n ∈ bd.sig.req) :
+    n ∈ cd.required ∧ (n ∉ cd.constants.map (·.1) → n ∈ cd.sig.req) :=
+  sub_required_superset h (by rw [hb]; simp) hn
 
 
 /-- instance-level consequence: an identical Field object validates every value identically -/
@@ -430,6 +465,71 @@ theorem sealed_base_rejected (O : Oracles) {w : World} (src : ClassSrc) {b s : S
     rw [hsealed] at this
     cases this
 
+theorem c14_noSealed_add {w : World} {c d : ClassDef} (hc : ClassOk w c) (h : NoSealedAncestor w c) :
+    NoSealedAncestor (w.add d) c := by
+  intro a ha
+  rcases hc.closed a (List.mem_of_mem_tail ha) with ⟨ad, had, _⟩
+  rw [sealedCls_add (by rw [had]; rfl)]
+  exact h a ha
+
+theorem c14_noSealed_init (bc bn : Bool) :
+    ∀ n c, (initWorld bc bn).find n = some c → NoSealedAncestor (initWorld bc bn) c := by
+  intro n c hc
+  have hm : c ∈ (initWorld bc bn).classes := c12_findCls_mem hc
+  simp only [initWorld, World.init, List.mem_cons, List.not_mem_nil, or_false] at hm
+  intro a ha
+  rcases hm with rfl | rfl | rfl | rfl
+  · simp [World.builtin] at ha
+  all_goals
+    have : a = "Structure" := by simpa [World.builtin] using ha
+    subst this
+    rfl
+
+/-- C14 (sealed classes, every history): in every world reachable by class statements no class has
+    a strict subclass of FinalStructure / ImmutableStructure among its proper ancestors — such a
+    class is never extended, at any depth, through any mix of bases -/
+theorem reachable_no_sealed_ancestor {O : Oracles} {w : World} (h : Reachable O w) :
+    ∀ n c, w.find n = some c → NoSealedAncestor w c := by
+  induction h with
+  | init bc bn => exact c14_noSealed_init bc bn
+  | @step w s c hr hs hf ih =>
+    have hw := reachable_ok hr
+    have hw' := worldOk_step hw hs hf
+    intro n d hd
+    rcases find_add_inv hd with h1 | ⟨_, rfl, _⟩
+    · exact c14_noSealed_add (hw n d h1) (ih n d h1)
+    · -- the new class
+      have hnew : NoSealedAncestor w d := by
+        cases s with
+        | define src => simp only [stepClass] at hs; exact defined_no_sealed_ancestor hs
+        | mixin m =>
+          simp only [stepClass] at hs
+          cases hs
+          intro a ha
+          simp [mixinDef] at ha
+        | derive op source newName =>
+          simp only [stepClass] at hs
+          split at hs
+          · simp only [deriveClass] at hs
+            rcases bindE_eq_ok hs with ⟨src, _, hdd⟩
+            exact defined_no_sealed_ancestor hdd
+          · cases hs
+      intro a ha
+      have hdok := hw' d.name d (find_add_fresh hf)
+      rcases hdok.closed a (List.mem_of_mem_tail ha) with ⟨ad, had, _⟩
+      -- `a` is a proper ancestor, so it already existed
+      have hne : a ≠ d.name := by
+        rcases hdok.head with ⟨t, ht⟩
+        intro he
+        rw [ht] at ha
+        have hnd := hdok.nodup
+        rw [ht] at hnd
+        simp only [List.tail_cons] at ha
+        exact (List.nodup_cons.mp hnd).1 (he ▸ ha)
+      rcases find_add_inv had with h1 | ⟨_, _, h2⟩
+      · rw [sealedCls_add (by rw [h1]; rfl)]
+        exact hnew a ha
+      · exact absurd h2.symm hne
 /-! ### kernel-checked counterexamples (the known findings) and non-vacuity -/
 
 def exO : Oracles := { reMatch := fun _ _ => true }
@@ -480,26 +580,30 @@ def reqOf (w : World) (n : String) : List String :=
   | some c => c.required
   | none => []
 
-/-- finding `required-not-superset:constant`: a Constant of the base is in the base's
-    `_required` (it has no `_default`) but not in the subclass's -/
+/-- fixed finding `required-not-superset:constant`: a Constant of the base is in the base's
+    `_required` (it has no `_default`) and — being still a Constant in the subclass — in the
+    subclass's too, although no constructor signature carries it -/
 def constWorld : World :=
   runSteps exO W0 [.define (plainSrc "B" ["Structure"] [("c", .obj (.const (.int 1))), ("a", intF)]),
-                   .define (plainSrc "S" ["B"] [("b", intF)])]
+                   .define (plainSrc "S" ["B"] [("b", intF)]),
+                   .define (plainSrc "T" ["B"] [("c", .field (.integer {}) (some (.lit (.int 2))) none)])]
 
-theorem constant_required_dropped :
-    (reqOf constWorld "B").contains "c" = true ∧ (reqOf constWorld "S").contains "c" = false
-    ∧ (reqOf constWorld "S").contains "a" = true := by
+theorem fixed_constant_required_kept :
+    (reqOf constWorld "B").contains "c" = true ∧ (reqOf constWorld "S").contains "c" = true
+    ∧ (reqOf constWorld "S").contains "a" = true
+    -- a subclass that REPLACES the Constant by a Field with a default is free to
+    ∧ (reqOf constWorld "T").contains "c" = false := by
   decide
 
-/-- finding `required-not-superset:optional-in-earlier-base`: with two bases the first
-    declaration of a parameter wins, so a name required by the second base stays optional -/
+/-- fixed finding `required-not-superset:optional-in-earlier-base`: with two bases a later base
+    that requires a parameter upgrades what an earlier base declares optional -/
 def twoBaseWorld : World :=
   runSteps exO W0 [.define { plainSrc "A1" ["Structure"] [("a", intF)] with required := some [] },
                    .define (plainSrc "A2" ["Structure"] [("a", intF)]),
                    .define (plainSrc "S" ["A1", "A2"] [("b", intF)])]
 
-theorem second_base_required_dropped :
-    (reqOf twoBaseWorld "A2").contains "a" = true ∧ (reqOf twoBaseWorld "S").contains "a" = false
+theorem fixed_second_base_required_kept :
+    (reqOf twoBaseWorld "A2").contains "a" = true ∧ (reqOf twoBaseWorld "S").contains "a" = true
     ∧ (reqOf twoBaseWorld "S").contains "b" = true := by
   decide
 
@@ -592,11 +696,13 @@ theorem ignore_none_exclusion_necessary :
     ∧ isOkR (instantiate exO (clsOf ignWorld "B") (restrictKw (clsOf ignWorld "B") [("a", .none)])) = false := by
   decide
 
-/-- the required-parameter exclusion is necessary (finding `required-not-superset:optional-in-earlier-base`
-    at constructor level): `S(A1, A2)` accepts `b=1` alone, `A2` demands `a` -/
-theorem second_base_ctor_counterexample :
-    isOkR (instantiate exO (clsOf twoBaseWorld "S") [("b", .int 1)]) = true
-    ∧ isOkR (instantiate exO (clsOf twoBaseWorld "A2") (restrictKw (clsOf twoBaseWorld "A2") [("b", .int 1)])) = false := by
+/-- fixed finding `required-not-superset:optional-in-earlier-base` at constructor level:
+    `S(A1, A2)` refuses `b=1` alone like `A2` does; with `a` supplied both accept -/
+theorem fixed_second_base_ctor :
+    isOkR (instantiate exO (clsOf twoBaseWorld "S") [("b", .int 1)]) = false
+    ∧ isOkR (instantiate exO (clsOf twoBaseWorld "S") [("a", .int 2), ("b", .int 1)]) = true
+    ∧ isOkR (instantiate exO (clsOf twoBaseWorld "A2")
+        (restrictKw (clsOf twoBaseWorld "A2") [("a", .int 2), ("b", .int 1)])) = true := by
   decide
 
 /-- an abstract class through every entry point, and its concrete subclass -/
